@@ -80,9 +80,19 @@ def near_miss_cells(m, g, tier):
                 pos = [i for i, pr in enumerate(provs) if pr & field and len(key[i] - alpha) == 0]
                 if not pos:
                     continue
+                allpos = list(pos)
                 if tier == "quick" and len(pos) > 6:
                     pos = sorted(set([pos[0], pos[1], pos[2], pos[3], pos[len(pos) // 2], pos[-1]]))
                 bad = K.CLEAN - alpha - frozenset(b"$")
+                if field == P_COUNT and alpha == DIGITS and len(allpos) >= 5 and method not in ("bcrypt", "bcrypt_a", "bcrypt_x", "bcrypt_y"):
+                    # decimal cost with a leading zero whose value is still in range (crypt.5: [1-9][0-9]+): malformed
+                    k2 = list(key)
+                    k2[allpos[0]] = frozenset(b"0")
+                    for j in allpos[1:]:
+                        k2[j] = frozenset(b"9")
+                    cid = "N%s#%d@lead0" % (method, pi)
+                    cells.append(K.crypt_cell(cid, entry, b"", setting_bytes=b"", headsets=k2, size=(32768, 32768), align=(0, 0)))
+                    meta[cid] = {"method": method, "pattern": tuple(k2), "pos": pos[0], "field": "cost (leading zero)", "row": row, "from": src}
                 for i in pos:
                     k2 = list(key)
                     k2[i] = frozenset(bad)
@@ -254,6 +264,40 @@ def oracle(chk, cg):
 
 
 
+def extra_cells(m, g):
+    """accepted settings that crypt_gensalt cannot produce: over-long salts (documented as truncated), explicit default
+    rounds, optional '$' terminators.  (method, tag, literal parts / number of salt characters, significant salt characters)"""
+    entry = common.sym(m, "crypt_rn").name
+    S = lambda n: [A64] * n
+    L = lambda b: [frozenset([c]) for c in b]
+    spec = [
+        ("md5crypt", "salt12", L(b"$1$") + S(12), [0] * 3 + [1] * 8 + [0] * 4),
+        ("md5crypt", "salt8$", L(b"$1$") + S(8) + L(b"$"), [0] * 3 + [1] * 8 + [0]),
+        ("sha256crypt", "salt20", L(b"$5$") + S(20), [0] * 3 + [1] * 16 + [0] * 4),
+        ("sha256crypt", "rounds5000+salt20", L(b"$5$rounds=5000$") + S(20), [0] * 10 + [8] * 4 + [0] + [1] * 16 + [0] * 4),
+        ("sha256crypt", "salt8$", L(b"$5$") + S(8) + L(b"$"), [0] * 3 + [1] * 8 + [0]),
+        ("sha512crypt", "salt20", L(b"$6$") + S(20), [0] * 3 + [1] * 16 + [0] * 4),
+        ("sha512crypt", "rounds5000+salt20", L(b"$6$rounds=5000$") + S(20), [0] * 10 + [8] * 4 + [0] + [1] * 16 + [0] * 4),
+        ("sha512crypt", "salt8$", L(b"$6$") + S(8) + L(b"$"), [0] * 3 + [1] * 8 + [0]),
+        ("sunmd5", "bare$", L(b"$md5$") + S(8) + L(b"$"), [0] * 5 + [1] * 8 + [0]),
+        ("sunmd5", "bare$$", L(b"$md5$") + S(8) + L(b"$$"), [0] * 5 + [1] * 8 + [0, 0]),
+        ("sunmd5", "rounds-noterm", L(b"$md5,rounds=5000$") + S(8), [0] * 12 + [8] * 4 + [0] + [1] * 8),
+        ("sha1crypt", "noterm", L(b"$sha1$1000$") + S(8), [0] * 6 + [8] * 4 + [0] + [1] * 8),
+        ("sha1crypt", "salt64", L(b"$sha1$20000$") + S(64) + L(b"$"), [0] * 6 + [8] * 5 + [0] + [1] * 64 + [0]),
+        ("bsdicrypt", "evencount", L(b"_A/..") + S(4), [0] + [8] * 4 + [1] * 4),
+    ]
+    cells, meta = [], {}
+    rows = {G.method_of_row(r): r for r in g["rows"]}
+    for method, tag, pat, provs in spec:
+        if method not in rows:
+            continue
+        assert len(pat) == len(provs), (method, tag)
+        cid = "E%s#%s" % (method, tag)
+        cells.append(K.crypt_cell(cid, entry, b"", setting_bytes=b"", headsets=pat, size=(32768, 32768), align=(0, 0)))
+        meta[cid] = {"method": method, "pattern": tuple(pat), "from": "hand-written: " + tag, "row": rows[method], "provs": tuple(provs), "extra": True}
+    return cells, meta
+
+
 def run_traced(tier="quick"):
     """the composition cells again (two patterns per method in the quick tier), with read tracing of the phrase and the
     setting: per cell, the union over all explored paths of the offsets that loads, digest-contract reads, formatted-copy
@@ -271,6 +315,9 @@ def run_traced(tier="quick"):
         cells = []
         for k, v in sorted(by.items()):
             cells += [v[0]] + ([v[-1]] if len(v) > 1 else [])
+    ec, em = extra_cells(m, g)
+    cells += ec
+    meta.update(em)
     kdf = [e for e in K.CONTRACTS["yescrypt_kdf"] if e.get("op") != "ret"] + [{"op": "ret", "lo": 0, "hi": 0}]
     cfg = K.config(m, {"check_badsalt_chars": [{"op": "ret", "lo": 0, "hi": 0}], "yescrypt_kdf": kdf})
     from . import unit_contracts
@@ -307,7 +354,11 @@ def run_rehash(tier="quick"):
             H = [s_ for s_, pr in chars]
             rid = "R" + cid
             cells.append(K.crypt_cell(rid, entry, b"", setting_bytes=b"", headsets=H, size=(32768, 32768), align=(0, 0)))
-            meta[rid] = {"from": cid, "H": H, "method": mt["method"], "pattern": mt["pattern"], "row": mt["row"],
+            nd = 0
+            while nd < ln and chars[ln - 1 - nd][1] == O.P_DIGEST:
+                nd += 1
+            meta[rid] = {"from": cid, "H": H, "method": mt["method"], "pattern": mt["pattern"], "row": mt["row"], "extra": mt.get("extra", False),
+                         "setting_part": min(len(mt["pattern"]), ln - nd) if nd else len(mt["pattern"]),
                          "phr_box": list(p["roots"][0]), "first_reads": c.get("reads", {}), "first_trace": c.get("trace", []),
                          "first_rejections": sorted({p2.get("errno_at", "") for p2 in c["paths"] if p2["ret"] == "null"})}
             break
